@@ -90,6 +90,7 @@ def build_server():
     srv.register_tool("bytes", ret_bytes, {"type": "object"})
     srv.register_tool("obj", ret_obj, {"type": "object"})
     srv.register_tool("sync", sync_tool, {"type": "object"})
+    srv.register_tool("caf\u00e9", echo, {"type": "object"})   # NFC; the NFD spelling is another (unknown) name
     for name, exc in (("raise_value", ValueError("bad \n value")), ("raise_key", KeyError("k")),
                       ("raise_runtime", RuntimeError("boom")), ("raise_type", TypeError("t")),
                       ("raise_timeout", asyncio.TimeoutError()), ("raise_custom", type("Custom", (Exception,), {})("c")),
@@ -155,7 +156,7 @@ CUSTOM_RAISERS = ["custom/raise_noargs", "custom/raise_timeout", "custom/raise_a
                   "custom/raise_lookup"]
 RAISING_TOOLS = {"raise_value", "raise_key", "raise_runtime", "raise_type", "raise_timeout", "raise_custom",
                  "raise_unicode", "sync", "raise_noargs", "raise_assert", "raise_lookup"}
-GOOD_TOOLS = {"echo", "dict", "list", "none", "bytes", "obj"}
+GOOD_TOOLS = {"echo", "dict", "list", "none", "bytes", "obj", "caf\u00e9"}
 
 IDS = [0, -1, 1, 2**53, 2**63, "", "x", "123", "007", "id with space", "ü\U0001f600"]
 
@@ -177,10 +178,12 @@ def params_shapes(method: str) -> List[Any]:
         base += [{"name": "echo", "arguments": {"text": "hi  "}}, {"name": "echo", "arguments": None},
                  {"name": "echo", "arguments": "str"}, {"name": "echo", "arguments": [1]},
                  {"name": "echo", "arguments": {"unknown_kw": 1}}, {"name": "dict", "arguments": {"a": None, "b": {"c": []}}},
-                 {"name": "nope"}, {"name": "only_older"}, {"name": "only_newer"}, {"name": ""}, {"name": 5}, {"name": None}, {"arguments": {}},
+                 {"name": "nope"}, {"name": "only_older"}, {"name": "only_newer"}, {"name": ""},
+                 {"name": "Echo"}, {"name": " echo"}, {"name": "echo "}, {"name": "ECHO"}, {"name": "cafe\u0301"}, {"name": "caf\u00e9"}, {"name": 5}, {"name": None}, {"arguments": {}},
                  {"name": ["unhashable"]}, {"name": {"un": "hashable"}}, {"name": "echo", "extra": True}]
     if method == "resources/read":
-        base += [{"uri": "file:///ok.txt"}, {"uri": "file:///bad.txt"}, {"uri": "file:///missing"}, {"uri": "file:///only_older.txt"},
+        base += [{"uri": "file:///ok.txt"}, {"uri": "file:///bad.txt"}, {"uri": "file:///missing"}, {"uri": "FILE:///ok.txt"}, {"uri": "file:///ok.txt "}, {"uri": "file:///OK.txt"},
+                 {"uri": "file:///only_older.txt"},
                  {"uri": "file:///only_newer.txt"}, {"uri": 5},
                  {"uri": None}, {"uri": ["x"]}, {"uri": ""}]
     if method == "initialize":
